@@ -8,11 +8,12 @@ ids = [p["id"] for p in props]
 na_path = os.path.join(ROOT, "tools", "not_applicable.json")
 NA = json.load(open(na_path)) if os.path.exists(na_path) else {}
 baseline = json.load(open("/root/.vp/BASELINE.json"))["cmd"].replace("--junitxml=<file>", "--junitxml=/tmp/verif_baseline.junit.xml")
+CLAIMED = json.load(open(os.path.join(ROOT, "tools", "claimed.json")))  # only checks confirmed on the clean tree
 checks = []
 not_applicable = []
 for pid in ids:
     path = os.path.join(ROOT, "props", pid + ".py")
-    if os.path.exists(path) and pid not in NA:
+    if os.path.exists(path) and pid not in NA and pid in CLAIMED:
         pm = importlib.import_module("props." + pid)
         checks.append({
             "property_id": pid,
